@@ -296,7 +296,7 @@ def tie(ctx, model_ok=True):
                  + '; ec_cited := [' + '; '.join(f'({a - 1}, {b - 1})%nat' for a, b in sorted(set(cited(msg)))) + '] |}')
         except Exception:      # noqa
             continue
-        if len(t) < 20000:
+        if len(t) < 200000:
             terms.append(t)
             info.append((c.text, repr(c.tyspec), msg[:300]))
     bad = nodeops.eval_shards('C17', terms, per_shard=150, header=HEADER, fn='err_mismatches', ctype='errcase') if terms else []
